@@ -155,6 +155,7 @@ def r02_2(ctx, prog, crate, rec):
         bodies, ext, _ = prog.callee_closure([cb], crate=b.crate)
         sync_bodies.extend(x for x in bodies if any(c.callee == "std::sync::Barrier::wait" for c in x.calls))
     if ctx.anchor("R02.2", "sync implementation (body calling Barrier::wait)", sync_bodies, 1):
+        clears_somewhere = False
         for sb in sync_bodies:
             ctx.saw(sb)
 
@@ -190,9 +191,13 @@ def r02_2(ctx, prog, crate, rec):
                     ctx.check("clear" not in seq, "R02.2d", [sb.path, "clear-without-current"] + list(seq),
                               "tally cleared on a path that did not fetch the current thread's tally", sb.where(path[-1]))
             # the clear path exists and `current` is fetched only when the start flag is true
-            ctx.check(any("clear" in s for (s, _r) in seqs), "R02.2a", [sb.path, "clear-exists"],
-                      "no feasible path clears the tally before the timed section", sb.where(0))
+            has_flag_ = any(sb.local_ty(l) == "bool" for l in range(1, sb.arg_count + 1))
+            clears_somewhere = clears_somewhere or any("clear" in s for (s, _r) in seqs)
+            if has_flag_ or len(sync_bodies) == 1:
+                ctx.check(any("clear" in s for (s, _r) in seqs), "R02.2a", [sb.path, "clear-exists"],
+                          "no feasible path clears the tally before the timed section", sb.where(0))
             _start_flag_guards_current(ctx, sb)
+        ctx.check(clears_somewhere, "R02.2a", ["sync", "clear-exists"], "no synchronisation step clears the tally before the timed section", b.where(0))
     for p in rec.paths:
         lbl = p.label
         # (b) no call between sync_threads(true) returning and `start`
@@ -279,6 +284,12 @@ def r02_2(ctx, prog, crate, rec):
 def _start_flag_guards_current(ctx, sb):
     """`ThreadAllocInfo::current()` (which precedes the clear) is control-dependent on the bool parameter."""
     cur = [c for c in sb.live_calls() if c.callee.endswith("ThreadAllocInfo::current")]
+    has_flag = any(sb.local_ty(l) == "bool" for l in range(1, sb.arg_count + 1))
+    if not has_flag:
+        # start and end synchronisation are separate functions: this one is the start step (it fetches the tally to
+        # clear it) or the end step (it does not) - which one runs where is decided at the call sites (R02.2b/c)
+        ctx.ok("R02.2a", sb.path + "|" + ("start-step" if cur else "end-step"))
+        return
     if not ctx.anchor("R02.2a", "ThreadAllocInfo::current() in the sync implementation", cur, 1):
         return
     for c in cur:
